@@ -13,7 +13,10 @@ For every interface version FluxFactory registers and generated id lists (1-6 f5
 of one another, some unknown to the broker, the others in any of the states D P S R C CD F CA TO
 or an undocumented abbreviation) the real adapter's check_jobs(joblist) must satisfy
 
- (i)   the job-list RPC reported an error (or raised)  =>  the code is not JobStatusCode.OK and
+ (i)   the job-list RPC reported an error  =>  the code is not JobStatusCode.OK; the query RAISED
+       (JobList.jobs(), the JobList constructor or the handle creation: OSError ENOENT / ECONNREFUSED /
+       EPIPE, ConnectionError, TimeoutError, RuntimeError, ValueError, EnvironmentError with other
+       errnos)  =>  the code is ERROR, not OK and not NOJOBS; in both cases
        no entry of the returned dict is a State                      (C16 "a failed query never
        yields OK; on a non-OK code no entry is a state", C20: the engine aborts instead of
        applying a partial table)
@@ -41,10 +44,28 @@ THOROUGH = 2500
 
 ABBREVS = ["D", "P", "S", "R", "C", "CD", "F", "CA", "TO"]
 ODD = ["X", "", "PD", "cd", "I"]
-DEAD = {"ConnectionResetError": lambda: ConnectionResetError(104, "Connection reset by peer"),
-        "OSError": lambda: OSError(2, "No such file or directory"),
+import errno as _e
+
+# what a dead / vanished / misbehaving broker raises out of the job-list query
+DEAD = {"OSError(ENOENT)": lambda: OSError(_e.ENOENT, "No such file or directory"),
+        "FileNotFoundError": lambda: FileNotFoundError(_e.ENOENT, "No such file or directory", "/run/flux/local"),
+        "OSError(ECONNREFUSED)": lambda: OSError(_e.ECONNREFUSED, "Connection refused"),
+        "OSError(EPIPE)": lambda: OSError(_e.EPIPE, "Broken pipe"),
+        "ConnectionError": lambda: ConnectionError("broker connection lost"),
+        "ConnectionResetError": lambda: ConnectionResetError(_e.ECONNRESET, "Connection reset by peer"),
+        "TimeoutError": lambda: TimeoutError(_e.ETIMEDOUT, "Connection timed out"),
         "RuntimeError": lambda: RuntimeError("flux_rpc: broker is shutting down"),
-        "EnvironmentError": lambda: EnvironmentError(110, "Connection timed out")}
+        "ValueError": lambda: ValueError("malformed job-list response"),
+        "EnvironmentError(EHOSTUNREACH)": lambda: EnvironmentError(_e.EHOSTUNREACH, "No route to host"),
+        "EnvironmentError(ENOSYS)": lambda: EnvironmentError(_e.ENOSYS, "Function not implemented"),
+        "EnvironmentError(EPROTO)": lambda: EnvironmentError(_e.EPROTO, "Protocol error"),
+        "EnvironmentError(EACCES)": lambda: EnvironmentError(_e.EACCES, "Permission denied"),
+        "EnvironmentError(no errno)": lambda: EnvironmentError("flux: unexpected end of stream"),
+        # names used by older corpus files
+        "OSError": lambda: OSError(_e.ENOENT, "No such file or directory"),
+        "EnvironmentError": lambda: EnvironmentError(_e.ETIMEDOUT, "Connection timed out")}
+DEAD_GEN = [k for k in DEAD if k not in ("OSError", "EnvironmentError")]
+WHERE = ["jobs", "joblist", "handle"]
 
 
 def versions():
@@ -74,6 +95,9 @@ def run_case(case):
             adapter, obs["how"] = F.make_adapter("flux:" + ver)
             dead = DEAD[case["dead"]]() if case.get("dead") else None
             F.WORLD.reset(unknown=[int(F.JobID(i)) for i in ids if i not in broker], dead=dead, order=order)
+            F.WORLD.dead_where = case.get("where") or "jobs"
+            if dead is not None and F.WORLD.dead_where == "handle":
+                adapter._interface.flux_handle = None       # the cached handle is gone: the query reconnects
             for i, ab in broker.items():
                 F.WORLD.state[int(F.JobID(i))] = ab
             try:
@@ -128,10 +152,13 @@ def judge(case, obs):
         return None
     unknown = [i for i in ids if i not in broker]
     if case.get("dead") or unknown:
-        why = ("the job-list RPC raised %s" % case["dead"]) if case.get("dead") else \
+        why = ("the job-list query raised %s (in %s)" % (case["dead"], {"jobs": "JobList.jobs()", "joblist": "JobList(...)",
+                                                                         "handle": "flux.Flux()"}[case.get("where") or "jobs"])) \
+            if case.get("dead") else \
             "the job-list RPC reported an error for %d of the %d ids (first: %s)" % (len(unknown), len(ids), unknown[0])
-        if obs["code"] == "OK":
-            return "%s but check_jobs returned OK (table of %d entries)" % (why, len(obs["st"]))
+        if obs["code"] == "OK" or (case.get("dead") and obs["code"] != "ERROR"):
+            # a query that raised is a FAILED query: ERROR, never OK and never "no jobs"
+            return "%s but check_jobs returned %s (table of %d entries)" % (why, obs["code"], len(obs["st"]))
         if claimed:
             return "%s, the code is %s, yet the table claims a state for %s" % (why, obs["code"], claimed[0])
         return None
@@ -173,12 +200,13 @@ def replay_flux(ck, d):
 # ----------------------------------------------------------------------------
 # generators
 # ----------------------------------------------------------------------------
-def mk(ver, ids, abbrevs, order=None, dead=None):
+def mk(ver, ids, abbrevs, order=None, dead=None, where=None):
     """abbrevs[k] is None for an id the broker does not know."""
     broker = {i: a for i, a in zip(ids, abbrevs) if a is not None}
     known = [i for i in ids if i in broker]
     return {"kind": "fluxq", "version": ver, "ids": list(ids), "broker": broker,
-            "order": list(order) if order is not None else known, "dead": dead}
+            "order": list(order) if order is not None else known, "dead": dead,
+            "where": (where or "jobs") if dead else None}
 
 
 def small_scope(ver):
@@ -194,8 +222,10 @@ def small_scope(ver):
             out.append(c)
             if a is not None and b is not None and a != b:
                 out.append(mk(ver, ids, [a, b], order=list(reversed(ids))))
-    for d in sorted(DEAD):
-        out.append(mk(ver, ["ƒ2a", "ƒ2"], ["R", "CD"], dead=d))
+    for d in DEAD_GEN:
+        for w in WHERE:
+            out.append(mk(ver, ["ƒ2a", "ƒ2"], ["R", "CD"], dead=d, where=w))
+            out.append(mk(ver, ["ƒ2a"], [None], dead=d, where=w))
     return out
 
 
@@ -225,7 +255,8 @@ def gen_cases(rng, ver, n):
         known = [i for i, a in zip(ids, ab) if a is not None]
         order = list(known)
         rng.shuffle(order)
-        out.append(mk(ver, ids, ab, order=order, dead=rng.choice(sorted(DEAD)) if scen == "dead" else None))
+        out.append(mk(ver, ids, ab, order=order, dead=rng.choice(DEAD_GEN) if scen == "dead" else None,
+                      where=rng.choice(WHERE)))
     return out
 
 
@@ -244,7 +275,8 @@ def run_flux(ck):
         obs, verdict = replay_case(case)
         ids, broker = case["ids"], case.get("broker", {})
         nunk = len([i for i in ids if i not in broker])
-        scen = "empty list" if not ids else "dead broker" if case.get("dead") else \
+        scen = "empty list" if not ids else ("dead broker, raised in %s" % (case.get("where") or "jobs")) \
+            if case.get("dead") else \
             ("all ids unknown" if nunk == len(ids) else "some id unknown") if nunk else \
             ("clean, answer reordered" if case.get("order") != [i for i in ids if i in broker] else "clean")
         bump("%s %s" % (case["version"], scen))
@@ -253,7 +285,7 @@ def run_flux(ck):
         if obs.get("how"):
             how[case["version"]] = obs["how"]
         key = ("fluxq", case["version"], tuple(ids), tuple(sorted(broker.items())), tuple(case.get("order", [])),
-               case.get("dead"))
+               case.get("dead"), case.get("where"))
         ck.count(key, nontrivial=len(ids) >= 2 or nunk > 0 or bool(case.get("dead")))
         rec = dict(case, observed=obs, origin=origin)
         if verdict:
